@@ -3,7 +3,7 @@
  * own element, returns after all have finished, and the results are identical
  * to a sequential run whatever the assignment of trials to worker threads.
  *
- * cimba_run_experiment is called for real. cmi_cpu_cores() is replaced by the
+ * cimba_run_experiment is called for real. get_nprocs() (asked by cmi_cpu_cores()) is answered by the
  * harness (worker count), pthread_create/join are wrapped (-Wl,--wrap) so that
  * the workers run under the serialising scheduler; every entry to and return
  * from the trial function is a scheduling point, so the explorer decides which
@@ -50,9 +50,12 @@ static pthread_t pilot_th[32];
 static bool pilot_joined[32];
 static int npilot;
 
-uint32_t cmi_cpu_cores(void)
+/* the machine has W processors: the library's own cmi_cpu_cores() runs for real and asks the C library, which is
+ * answered here (link-time --wrap=get_nprocs) */
+int __wrap_get_nprocs(void);
+int __wrap_get_nprocs(void)
 {
-    return (uint32_t)W;
+    return W;
 }
 
 int __wrap_pthread_create(pthread_t *th, const pthread_attr_t *attr, void *(*fn)(void *), void *arg)
